@@ -254,9 +254,15 @@ unmangle!(
     }
 
     pub extern "C" fn mz_deflateBound(_stream: *mut mz_stream, source_len: c_ulong) -> c_ulong {
+        // The last term covers blocks that can only be written with the fixed Huffman code
+        // (MZ_FIXED): a literal costs up to 9 bits there, and blocks longer than the
+        // dictionary cannot fall back to stored blocks.
         cmp::max(
-            128 + (source_len * 110) / 100,
-            128 + source_len + ((source_len / (31 * 1024)) + 1) * 5,
+            cmp::max(
+                128 + (source_len * 110) / 100,
+                128 + source_len + ((source_len / (31 * 1024)) + 1) * 5,
+            ),
+            128 + source_len + source_len / 8 + ((source_len / (31 * 1024)) + 1) * 5,
         )
     }
 
